@@ -251,6 +251,48 @@ impl Check for C04 {
                 cx.violation("valid-record-not-forwarded-once", format!("a {label} record produced {} validation events (expected exactly one with the same bytes)", events.len()), w.clone());
             }
         }
+        // ---- a raw kad put of OTHER bytes under the key of a held chunk that has left the read cache: whatever the
+        //      store answers, readers keep getting the validated chunk
+        {
+            // shrink the cache to one entry and push the victims out of it with a fresh record
+            if let Some(st) = sim.nodes[0].drv.verif_store_mut() {
+                let snap = st.verif_snapshot();
+                st.verif_set_limits(snap.max_records, 1);
+            }
+            let filler = make_item(&mut cx.rng, Kind::Chunk);
+            {
+                let _g = sim.rt.enter();
+                let _ = sim.nodes[0].drv.verif_handle_local_cmd(ant_networking::verif::LocalSwarmCmd::PutLocalRecord { record: filler.plain_record.clone() });
+            }
+            let mut d = || true;
+            sim.settle(&mut d);
+            for v in victims.iter().filter(|v| v.plain_record.value.get(1) == Some(&1)) {
+                let Some(held) = sim.get_local(0, &v.key) else { continue };
+                // reading put it back into the one-entry cache: push it out again
+                let filler2 = make_item(&mut cx.rng, Kind::Chunk);
+                {
+                    let _g = sim.rt.enter();
+                    let _ = sim.nodes[0].drv.verif_handle_local_cmd(ant_networking::verif::LocalSwarmCmd::PutLocalRecord { record: filler2.plain_record.clone() });
+                }
+                sim.settle(&mut d);
+                let forged = { let len = cx.rng.gen_range(1..200); gen::chunk_record(&gen::chunk(&mut cx.rng, len)).value };
+                let res = {
+                    let _g = sim.rt.enter();
+                    sim.nodes[0].drv.verif_store_mut().expect("store").put(gen::record(v.key.clone(), forged.clone()))
+                };
+                cx.eval();
+                cx.count("raw-put:other-bytes-under-a-held-chunk-key");
+                let now = sim.get_local(0, &v.key);
+                if now.as_ref().map(|r| &r.value) != Some(&held.value) {
+                    cx.violation(
+                        "unvalidated-bytes-served-under-a-held-chunk-key",
+                        format!("after a raw put ({res:?}) of {} other bytes under the key of a held chunk, get returns {:?} bytes instead of the {} validated ones", forged.len(), now.map(|r| r.value.len()), held.value.len()),
+                        json!({"result": format!("{res:?}")}),
+                    );
+                }
+                sim.nodes[0].event_q.clear();
+            }
+        }
         if cx.index < 2 {
             cx.sample(json!({"victims": victims.len(), "deliveries": 24, "raw_puts": 10, "schedule_head": sim.schedule.iter().take(10).cloned().collect::<Vec<_>>()}));
         }
